@@ -12,7 +12,7 @@ import (
 func TestRegressIntervalPLIStopsAfterUnbindRemote(t *testing.T) {
 	m := kit.NewMember("intervalpli", interval)
 	ic, _ := m.Factory.NewInterceptor("x")
-	defer func() { _ = ic.Close() }()
+	defer kit.BoundedClose(ic.Close)
 	sink := &kit.RTCPSink{}
 	ic.BindRTCPWriter(sink)
 	info := kit.RemoteInfo(0x7001, twccID)
@@ -30,7 +30,7 @@ func TestRegressIntervalPLIStopsAfterUnbindRemote(t *testing.T) {
 func TestRegressJitterBufferPlaysAfterRebind(t *testing.T) {
 	m := kit.NewMember("jitterbuffer", interval)
 	ic, _ := m.Factory.NewInterceptor("x")
-	defer func() { _ = ic.Close() }()
+	defer kit.BoundedClose(ic.Close)
 	info := kit.RemoteInfo(0x7001, twccID)
 	feed := func(start uint16) int {
 		src := &kit.ByteSource{}
